@@ -230,24 +230,19 @@ pub fn known_construct(a: &Analysis, e: &Edit, open_keys: &[String]) -> Option<&
 type Pred = fn(&Analysis, &Edit) -> bool;
 /// One entry per open C10 finding: (signature, construct predicate). See /verif/work/findings/C10.md.
 const KNOWN_PREDICATES: &[(&str, Pred)] = &[
-    // a file whose last line is a body-less (abstract) method declaration does not parse without its final newline
-    ("remove-final-newline:parse-error:Expected_':'_after_return_type_or_newline_for_abstract_method", |a, e| {
-        matches!(e, Edit::RemoveFinalNewline) && last_line_starts_with_keyword(a, &[KeywordId::Def, KeywordId::Async]) && !last_real_token_is(a, PunctuationId::Ellipsis)
-    }),
-    // `import super` (bare parent import) as the last line: the path parser accepts NEWLINE but not EOF after `super`
-    ("remove-final-newline:parse-error:Expected_'::'_or_'.'_after_'super'", |a, e| {
-        matches!(e, Edit::RemoveFinalNewline)
-            && last_line_starts_with_keyword(a, &[KeywordId::Import, KeywordId::From])
-            && real_tokens(a).next_back().is_some_and(|t| t.kind == TokenKind::Keyword(KeywordId::Super))
-    }),
+    // (none open. The two findings of the first runs — a body-less method declaration / `import super` as the last line
+    // without a final newline — were repaired in the repository (6cf089e); their canonical inputs are now regression
+    // inputs under known/C10. A new entry pairs the signature with a predicate built from the helpers below.)
 ];
 
+#[allow(dead_code)]
 fn real_tokens(a: &Analysis) -> impl DoubleEndedIterator<Item = &Token> {
     a.tokens.iter().filter(|t| !matches!(t.kind, TokenKind::Newline | TokenKind::Indent | TokenKind::Dedent | TokenKind::Eof))
 }
 
 /// The last code token is followed by nothing but the final newline (no blank / comment lines behind it), and the
 /// logical line it ends starts with one of the keywords.
+#[allow(dead_code)]
 fn last_line_starts_with_keyword(a: &Analysis, kws: &[KeywordId]) -> bool {
     let Some(last) = real_tokens(a).next_back() else { return false };
     if a.text[last.span.end..].matches('\n').count() != 1 {
@@ -260,6 +255,7 @@ fn last_line_starts_with_keyword(a: &Analysis, kws: &[KeywordId]) -> bool {
     }
 }
 
+#[allow(dead_code)]
 fn last_real_token_is(a: &Analysis, p: PunctuationId) -> bool {
     real_tokens(a).next_back().is_some_and(|t| t.kind == TokenKind::Punctuation(p))
 }
@@ -482,19 +478,40 @@ impl Analysis {
         self.text.ends_with('\n')
     }
 
-    /// Cross-check of the harness's indentation model against the lexer: same number of INDENT tokens as
-    /// depth increases. Used to skip (never to judge) bases on which the model and the lexer disagree.
+    /// Cross-check of the harness's indentation model against the lexer, line by line: the block depth the lexer's
+    /// INDENT/DEDENT tokens give to the first token of every logical line equals the model's depth, and the lexer starts
+    /// a logical line exactly where the model does. Bases on which they disagree (e.g. a stray `\r` inside leading
+    /// whitespace, which the lexer skips without counting) are never re-indented: the layout is one the documentation does
+    /// not define, so the case is discarded, not judged.
     pub fn model_agrees_with_lexer(&self) -> bool {
-        let indents = self.tokens.iter().filter(|t| matches!(t.kind, TokenKind::Indent)).count();
-        let mut prev = 0usize;
-        let mut ups = 0usize;
-        for l in self.lines.iter().filter(|l| l.logical) {
-            if l.depth > prev {
-                ups += l.depth - prev;
-            }
-            prev = l.depth;
+        if !self.indent_model_ok {
+            return false;
         }
-        self.indent_model_ok && indents == ups
+        let mut d = 0usize;
+        let mut seen_line = vec![false; self.lines.len()];
+        for t in &self.tokens {
+            match t.kind {
+                TokenKind::Indent => d += 1,
+                TokenKind::Dedent => d = d.saturating_sub(1),
+                TokenKind::Newline | TokenKind::Eof => {}
+                _ => {
+                    let li = self.lines.partition_point(|l| l.start <= t.span.start).saturating_sub(1);
+                    let Some(l) = self.lines.get(li) else { return false };
+                    if seen_line[li] {
+                        continue;
+                    }
+                    seen_line[li] = true;
+                    if l.logical {
+                        // first token of a logical line: same depth, and it sits right after the leading whitespace
+                        if l.depth != d || t.span.start != l.start + l.indent_bytes {
+                            return false;
+                        }
+                    }
+                }
+            }
+        }
+        // every logical line of the model carries a token
+        self.lines.iter().zip(seen_line.iter()).all(|(l, s)| !l.logical || *s)
     }
 }
 
@@ -674,7 +691,7 @@ pub fn apply(a: &Analysis, e: &Edit) -> Option<String> {
             Some(format!("{}\n{}{}", &t[..p], WS[*ws % WS.len()], &t[p..]))
         }
         Edit::Reindent { unit } => {
-            if !a.indent_model_ok {
+            if !a.model_agrees_with_lexer() {
                 return None;
             }
             let mut s = String::with_capacity(t.len());
